@@ -193,6 +193,7 @@ pub fn account_trace(st: &mut Stats, r: &RunSpec, o: &RunOutcome) {
                 }
             }
             "crash" => fault = Some("crash"),
+            "signal" => fault = Some("signal_delivered"),
             "height" => st.blocks_delivered += 1,
             _ => {}
         }
@@ -210,7 +211,7 @@ pub fn account_trace(st: &mut Stats, r: &RunSpec, o: &RunOutcome) {
         shape.extend_from_slice(&[e.op.as_bytes()[0], e.class.as_bytes().first().copied().unwrap_or(0), okflag, sz]);
     }
     if r.plan.has_failing() {
-        let reached = o.trace.iter().any(|e| e.op == "crash" || matches!(e.result(), Some((false, n)) if n != 4));
+        let reached = o.trace.iter().any(|e| e.op == "crash" || e.op == "signal" || matches!(e.result(), Some((false, n)) if n != 4));
         if !reached && r.plan.fdmax.is_none() {
             st.faults_planned_not_reached += 1;
         }
@@ -235,6 +236,15 @@ pub fn account_trace(st: &mut Stats, r: &RunSpec, o: &RunOutcome) {
     }
     if r.dump_in_data {
         st.probe("env_dump_folder_inside_data_dir");
+    }
+    if r.vlimit_mb.is_some() {
+        st.fired("address_space_limit", 1);
+    }
+    if r.omit_coin {
+        st.probe("env_coin_option_omitted");
+    }
+    if r.dir_alias.is_some() {
+        st.probe("env_coin_named_directory");
     }
     if r.verbosity > 0 {
         st.probe("env_verbose_logging");
